@@ -772,8 +772,10 @@ package scipipe
 //@ axiom nonewline.stable.after: forall x string :: !contains(x, "\n") ==> !contains(afterLastSlash(x), "\n")
 //@ axiom nonewline.stable.before: forall x string :: !contains(x, "\n") ==> !contains(beforeLastSlash(x), "\n")
 
+//@ ghost func reMatch(pat string, s string) bool
 //@ extern (*regexp.Regexp).MatchString(re, s) (res)
 //@   deterministic by-contract pure library function
+//@   ensures def: res == reMatch(regexLit(re), s)
 //@ extern (*regexp.Regexp).FindStringSubmatch(re, s) (res)
 //@   deterministic by-contract pure library function
 //@   ensures groups: forall i int :: res[i] == reGroup(regexLit(re), s, i)
@@ -1315,6 +1317,32 @@ package scipipe
 //@   props C16
 //@   requires keyed: keyedByName(wf.procs)
 //@   modifies *
+
+// RunTo / RunToRegex: how the targets are selected. RunTo hands over exactly the processes registered under the given
+// names (Proc fails for an unknown name); RunToRegex hands over exactly the registered processes whose name matches one of
+// the patterns (reMatch: Go's regexp as an uninterpreted relation).
+//@ func (*Workflow).Procs(wf) (res)
+//@   props C16
+//@   ensures def: res == wf.procs
+//@ func (*Workflow).RunTo(wf, finalProcNames)
+//@   props C16
+//@   modifies *
+//@   atcall (*Workflow).RunToProcs exactly-the-named-processes[C16]: len($arg1) == len(finalProcNames) && (forall j int :: 0 <= j && j < len(finalProcNames) ==> finalProcNames[j] in wf.procs && $arg1[j] == wf.procs[finalProcNames[j]])
+//@   loop 0 invariant range: 0 <= $i && $i <= len(finalProcNames) && len(procs) == $i && wf == old(wf)
+//@   loop 0 invariant looked-up: forall j int :: 0 <= j && j < $i ==> finalProcNames[j] in wf.procs && procs[j] == wf.procs[finalProcNames[j]]
+//@ func (*Workflow).RunToRegex(wf, procNamePatterns)
+//@   props C16
+//@   modifies *
+//@   atcall (*Workflow).RunToProcs only-registered-processes-with-a-matching-name[C16]: forall j int :: 0 <= j && j < len($arg1) ==> exists i int, k string :: 0 <= i && i < len(procNamePatterns) && k in wf.procs && $arg1[j] == wf.procs[k] && reMatch(procNamePatterns[i], k)
+//@   atcall (*Workflow).RunToProcs every-process-with-a-matching-name[C16]: forall i int, k string :: 0 <= i && i < len(procNamePatterns) && k in wf.procs && reMatch(procNamePatterns[i], k) ==> exists j int :: 0 <= j && j < len($arg1) && $arg1[j] == wf.procs[k]
+//@   loop 0 invariant range: 0 <= $i && $i <= len(procNamePatterns) && wf == old(wf)
+//@   loop 0 invariant only: forall j int :: 0 <= j && j < len(procsToRun) ==> exists i int, k string :: 0 <= i && i < $i && k in wf.procs && procsToRun[j] == wf.procs[k] && reMatch(procNamePatterns[i], k)
+//@   loop 0 invariant every: forall i int, k string :: 0 <= i && i < $i && k in wf.procs && reMatch(procNamePatterns[i], k) ==> exists j int :: 0 <= j && j < len(procsToRun) && procsToRun[j] == wf.procs[k]
+//@   loop 1 invariant range: 0 <= $i0 && $i0 < len(procNamePatterns) && wf == old(wf) && regexpPtrn != nil && regexLit(regexpPtrn) == procNamePatterns[$i0]
+//@   loop 1 invariant vis: forall k string :: $visited[k] ==> k in wf.procs
+//@   loop 1 invariant only: forall j int :: 0 <= j && j < len(procsToRun) ==> exists i int, k string :: 0 <= i && i <= $i0 && k in wf.procs && procsToRun[j] == wf.procs[k] && reMatch(procNamePatterns[i], k) && (i == $i0 ==> $visited[k])
+//@   loop 1 invariant every-earlier: forall i int, k string :: 0 <= i && i < $i0 && k in wf.procs && reMatch(procNamePatterns[i], k) ==> exists j int :: 0 <= j && j < len(procsToRun) && procsToRun[j] == wf.procs[k]
+//@   loop 1 invariant every-visited: forall k string :: $visited[k] && reMatch(procNamePatterns[$i0], k) ==> exists j int :: 0 <= j && j < len(procsToRun) && procsToRun[j] == wf.procs[k]
 
 //@ func (*Workflow).RunToProcs(wf, finalProcs)
 //@   props C16
